@@ -60,7 +60,6 @@ void *__wrap_malloc (size_t n)
 }
 
 extern double *wb_floor_trace; extern long wb_floor_n;
-extern double *wb_floor_arg;
 extern double *wb_ceil_trace;  extern long wb_ceil_n;
 void wb_reset (void);
 int wb_n_kernels (void);
@@ -75,8 +74,7 @@ typedef struct { axis_t a[2]; } case_t;
 
 static long lineno;			/* lines written to ops so far */
 static FILE *fops, *fimpl, *forc;
-static long st_maxdelta_small, st_nowrap_bad, st_mirror_checked, st_mirror_max, st_mirror_diff, st_res0, st_res1, st_resbig, st_exact;
-static long EXACTCAP = 192;
+static long st_maxdelta_small, st_nowrap_bad;
 static long st_cases, st_null, st_layout_only, st_composites, st_pairs, st_maxdelta, st_phases, st_cells;
 static long st_w0, st_zt, st_wrap, st_ubcast, st_neg;
 static long TEXTCAP = 20000;
@@ -106,9 +104,6 @@ typedef struct
     int32_t *tab;		/* w*n cells + GUARD */
     int32_t *raw, *pre;		/* w*n each */
     int32_t *x1;		/* n */
-    double *rawarg, *normarg;	/* w*n each: the arguments of the two floor calls per tap */
-    long res0, res1, resbig;	/* phases whose residual 65536 - sum(pre) is 0, +-1, something else (all-zero phases excluded) */
-    long maxres;
     int ub, zero_total, shape_ok;
     long nowrap_bad;		/* phases outside the NoWrap hypothesis of theorem W1 */
 } wbaxis_t;
@@ -129,8 +124,6 @@ wb_axis (wbaxis_t *A, axis_t ax)
     A->raw = malloc ((cells + 1) * 4);
     A->pre = malloc ((cells + 1) * 4);
     A->x1 = malloc (A->n * 4);
-    A->rawarg = malloc ((cells + 1) * sizeof (double));
-    A->normarg = malloc ((cells + 1) * sizeof (double));
     for (i = 0; i < cells + GUARD; i++)
 	A->tab[i] = CANARY32;
     wb_reset ();
@@ -146,8 +139,6 @@ wb_axis (wbaxis_t *A, axis_t ax)
 	{
 	    A->raw[i * A->w + k] = cast_fixed (wb_floor_trace[2 * i * A->w + k], &A->ub);
 	    A->pre[i * A->w + k] = cast_fixed (wb_floor_trace[2 * i * A->w + A->w + k], &A->ub);
-	    A->rawarg[i * A->w + k] = wb_floor_arg[2 * i * A->w + k];
-	    A->normarg[i * A->w + k] = wb_floor_arg[2 * i * A->w + A->w + k];
 	    if (A->raw[i * A->w + k])
 		allzero = 0;
 	}
@@ -163,12 +154,6 @@ wb_axis (wbaxis_t *A, axis_t ax)
 	    if (65536 - s < INT32_MIN || 65536 - s > INT32_MAX) bad = 1;
 	    if (A->w > 0 && (A->pre[i * A->w] + 65536 - s < INT32_MIN || A->pre[i * A->w] + 65536 - s > INT32_MAX)) bad = 1;
 	    A->nowrap_bad += bad;
-	    if (!allzero && A->w > 0)
-	    {
-		int64_t res = 65536 - s;
-		if (res == 0) A->res0++; else if (res == 1 || res == -1) A->res1++; else A->resbig++;
-		if (llabs (res) > A->maxres) A->maxres = llabs (res);
-	    }
 	    if (bad && !allzero) A->nowrap_bad += 1000000;	/* would be news: only all-zero phases are expected here */
 	}
     }
@@ -177,7 +162,7 @@ wb_axis (wbaxis_t *A, axis_t ax)
 static void
 wb_free (wbaxis_t *A)
 {
-    free (A->tab); free (A->raw); free (A->pre); free (A->x1); free (A->rawarg); free (A->normarg);
+    free (A->tab); free (A->raw); free (A->pre); free (A->x1);
 }
 
 static const char *
@@ -298,7 +283,6 @@ run_case (const case_t *c)
     if (X.ub || Y.ub) st_ubcast++;
     if (ax->scale < 0 || ay->scale < 0) st_neg++;
     st_nowrap_bad += X.nowrap_bad + Y.nowrap_bad;
-    st_res0 += X.res0 + Y.res0; st_res1 += X.res1 + Y.res1; st_resbig += X.resbig + Y.resbig;
 
 #define FAIL(symptom, cause, ...) do { if (nfail++ < 8) { fprintf (forc, "ORACLE %ld %s [%s] ", req, symptom, cause); fprintf (forc, __VA_ARGS__); fprintf (forc, "\n"); } } while (0)
 #define W0 (X.w == 0 || Y.w == 0)
@@ -353,34 +337,6 @@ run_case (const case_t *c)
 			if (s != 65536 && A->w > 0)
 			    FAIL ("phase-sum", A->zero_total ? "zero-total-phase" : shape, "%c table phase %d sums to %lld", "xy"[a], ph, (long long) s);
 		    }
-		}
-	    }
-	    /* the residual the code adds to the first tap: in exact arithmetic the error diffusion leaves exactly 0
-	     * (Props.C18.N_exact_total), doubles may leave one unit; anything larger is a wrong normalisation */
-	    if (X.resbig || Y.resbig || X.res1 || Y.res1)
-		FAIL ("residual", shape, "a phase needs a residual correction of %ld units (x) / %ld units (y); exact arithmetic leaves 0 (Props.C18K.N_exact_total) and the double errors are far below 1/2", X.maxres, Y.maxres);
-	    /* all kernels are even functions: the sampled coefficients of phase i are the mirror image of those of phase
-	     * n-1-i (exact model: Props.C18.K_pos_mirror, K_coeff_even); in doubles a rounding tie may move a sample by one
-	     * unit (and the normalised cell by 65536/total units), so the oracle compares the sampled integers */
-	    {
-		int a, ph, k;
-		for (a = 0; a < 2; a++)
-		{
-		    const wbaxis_t *A = a ? &Y : &X;
-		    long worst = 0;
-		    if (!A->shape_ok || (A->n == 1 && A->w % 2 == 0))
-			continue;
-		    for (ph = 0; ph < A->n; ph++)
-			for (k = 0; k < A->w; k++)
-			{
-			    long d = labs ((long) A->raw[ph * A->w + k] - (long) A->raw[(A->n - 1 - ph) * A->w + (A->w - 1 - k)]);
-			    if (d > worst) worst = d;
-			}
-		    st_mirror_checked += A->n;
-		    if (worst > st_mirror_max) st_mirror_max = worst;
-		    if (worst) st_mirror_diff++;
-		    if (worst > 1)
-			FAIL ("mirror", shape, "%c table: the samples of phase i are not the mirror image of those of phase n-1-i (one differs by %ld)", "xy"[a], worst);
 		}
 	    }
 	    /* constant colours through every pair of phases (or a sample of pairs for big tables) */
@@ -469,22 +425,6 @@ run_case (const case_t *c)
 		for (i = 0; i < GUARD; i++) fprintf (fimpl, " %d", p[nv + i]);
 		fprintf (fimpl, "\n");
 		lineno++;
-		/* polynomial kernel pairs: the doubles that reached the two floor calls, for the exact-rational model */
-		for (a = 0; a < 2; a++)
-		{
-		    const wbaxis_t *A = a ? &Y : &X;
-		    const axis_t *q = a ? ay : ax;
-		    int64_t cells = (int64_t) A->w * A->n;
-		    if (q->r >= 4 || q->s >= 4 || A->w == 0 || cells > EXACTCAP)
-			continue;
-		    fprintf (fops, "exact %d %d %d %d %d", q->r, q->s, q->scale, q->bits, A->w);
-		    for (k = 0; k < cells; k++) { uint64_t u; memcpy (&u, &A->rawarg[k], 8); fprintf (fops, " %llu", (unsigned long long) u); }
-		    for (k = 0; k < cells; k++) { uint64_t u; memcpy (&u, &A->normarg[k], 8); fprintf (fops, " %llu", (unsigned long long) u); }
-		    fprintf (fops, "\n");
-		    fprintf (fimpl, "OK\n");
-		    lineno++;
-		    st_exact++;
-		}
 	    }
 	    else
 		st_layout_only++;
@@ -582,8 +522,6 @@ emit_stats (void)
     fprintf (forc, "STAT %ld constant-image composites\nSTAT %ld phase pairs through the convolution arithmetic\nMAX %ld largest |sum of rounded products - 65536|\nMAX %ld largest |sum of rounded products - 65536| among tables with 255*w*h < 65536\n", st_composites, st_pairs, st_maxdelta, st_maxdelta_small);
     fprintf (forc, "STAT %ld phases\nSTAT %ld table cells\nSTAT %ld cases with a width-0 axis\nSTAT %ld cases with an all-zero sampled phase\nSTAT %ld cases with width >= 32768\nSTAT %ld cases where a NaN/out-of-range double reached an int cast\nSTAT %ld cases with a negative scale\nSTAT %ld phases outside W1's NoWrap hypothesis (each all-zero-sample phase counts 1, any other 1000001)\n",
 	     st_phases, st_cells, st_w0, st_zt, st_wrap, st_ubcast, st_neg, st_nowrap_bad);
-    fprintf (forc, "STAT %ld phases with residual 0\nSTAT %ld phases with residual +-1\nSTAT %ld phases with a larger residual\nSTAT %ld tables checked for mirror symmetry (phases)\nSTAT %ld tables where some mirrored sample differs (rounding ties)\nMAX %ld largest difference between mirrored samples\nSTAT %ld axis tables sent to the exact-rational model\n",
-	     st_res0, st_res1, st_resbig, st_mirror_checked, st_mirror_diff, st_mirror_max, st_exact);
 }
 
 static int
